@@ -203,21 +203,25 @@ static inline void yk_memmove(void* d, const void* s, uint64_t n) { if (n) memmo
 #endif
 static inline void yk_memcpy_v(void* d, const void* s, uint64_t n)
 {
+#ifdef YK_MEMCPY_BUILTIN
+    /* units whose variable-size copies relocate whole vector elements (std::vector growth in mem_usage): CBMC's own memcpy */
+    if (n) memcpy(d, s, n);
+    return;
+#endif
+#ifdef YK_MEMCPY_TI64
     if (n > YK_MEMCPY_CAP) {
-        /* a size that is not an IR constant but is one at run time (a tree_instance copied into its value block): plain memcpy */
+        /* a size that is not an IR constant but is one at run time (a tree_instance copied into its value block): plain memcpy.
+         * Only in the units that store tree_instance values: the infeasible branch costs every other query dearly. */
         YK_ASSERT(n == 64, "bound: variable-size memcpy larger than YK_MEMCPY_CAP (and not a tree_instance)"); YK_ASSUME(n == 64);
         memcpy(d, s, 64);
         return;
     }
+#else
+    YK_ASSERT(n <= YK_MEMCPY_CAP, "bound: variable-size memcpy larger than YK_MEMCPY_CAP"); YK_ASSUME(n <= YK_MEMCPY_CAP);
+#endif
     for (unsigned i = 0; i < YK_MEMCPY_CAP; i++) if (i < n) ((uint8_t*)d)[i] = ((const uint8_t*)s)[i];
 }
-static inline void yk_memmove_v(void* d, const void* s, uint64_t n)
-{
-    uint8_t tmp[YK_MEMCPY_CAP];
-    YK_ASSERT(n <= YK_MEMCPY_CAP, "bound: variable-size memmove larger than YK_MEMCPY_CAP"); YK_ASSUME(n <= YK_MEMCPY_CAP);
-    for (unsigned i = 0; i < YK_MEMCPY_CAP; i++) if (i < n) tmp[i] = ((const uint8_t*)s)[i];
-    for (unsigned i = 0; i < YK_MEMCPY_CAP; i++) if (i < n) ((uint8_t*)d)[i] = tmp[i];
-}
+static inline void yk_memmove_v(void* d, const void* s, uint64_t n) { if (n) memmove(d, s, n); }   /* array shifts of interior nodes: CBMC's own model */
 static inline void yk_memset(void* d, uint32_t c, uint64_t n) { if (n) memset(d, (int)c, n); }
 
 /* ---- std::string (libstdc++ SSO layout {char* p; size_t len; union {char buf[16]; size_t cap;}}): members that are out of
@@ -225,7 +229,7 @@ static inline void yk_memset(void* d, uint32_t c, uint64_t n) { if (n) memset(d,
  * (capacity policy of _M_create: max(requested, 2*old)); heap buffers are tracked by the ghost allocator so that the
  * sized delete in the real (header) destructor is checked.  Strings longer than YK_STR_MAX are a reported bound. */
 #ifndef YK_STR_MAX
-#define YK_STR_MAX 30
+#define YK_STR_MAX 15     /* 15 = strings never leave the local buffer in this unit (growth is a reported bound); units that need heap strings set 30 */
 #endif
 struct yk_str { uint8_t* p; uint64_t len; uint64_t cap; uint64_t buf1; };
 static inline void* yk_new(uint64_t n, uint64_t al);
@@ -235,6 +239,9 @@ static inline void yk_str_reserve(struct yk_str* s, uint64_t n)
     uint8_t* local = (uint8_t*)&s->cap;
     uint64_t cap = (s->p == local) ? 15 : s->cap;
     if (n <= cap) return;
+#if YK_STR_MAX <= 15
+    YK_ASSERT(0, "bound: std::string growth path reached (strings longer than 15 bytes are not modelled in this unit)"); YK_ASSUME(0);
+#endif
     YK_ASSERT(n <= YK_STR_MAX, "bound: std::string longer than YK_STR_MAX"); YK_ASSUME(n <= YK_STR_MAX);
     uint64_t ncap = n < 2 * cap ? 2 * cap : n;
     uint8_t* q = (uint8_t*)yk_new(ncap + 1, 16);
